@@ -427,6 +427,53 @@ def inline_name_part():
     return cases, viol
 
 
+def variant_and_opid_part():
+    """(a) a union's inline variant and another component's inline member whose derived names coincide (PetOwnerInfo);
+    (b) operation ids that collide after sanitising, next to an explicit id equal to the suffixed form: every entity keeps
+    an item / a method of its own"""
+    d = vlib.scratch("C09v")
+    viol, cases = [], []
+    S, I = {"type": "string"}, {"type": "integer"}
+    spec = {"openapi": "3.1.0", "info": {"title": "t", "version": "1"}, "paths": {}, "components": {"schemas": {
+        "Pet": {"oneOf": [{"title": "OwnerInfo", "type": "object", "properties": {"phone": S, "email": S}}, {"title": "Stray", "type": "object", "properties": {"found_at": S}}]},
+        "PetOwner": {"type": "object", "properties": {"name": S, "info": {"type": "object", "properties": {"zip": I}}}}}}}
+    cases.append(("variant-vs-member",))
+    sp = os.path.join(d, "a.json")
+    json.dump(spec, open(sp, "w"))
+    out = os.path.join(d, "a.rs")
+    rc, txt = vlib.oas(["generate", "types", "-i", sp, "-o", out, "-q", "--all-schemas", "--no-helpers"])
+    dump = vlib.vtool_lines("dump", [out])[0] if rc == 0 else {"error": txt[-200:]}
+    if rc != 0 or "error" in dump:
+        viol.append((cases[-1], f"variant / member name clash: generator failed rc={rc} {dump.get('error', '')[:200]}"))
+    else:
+        items = {x["name"]: x for x in dump["items"] if x["kind"] in ("struct", "enum")}
+        fields = lambda n: sorted(f["name"] for f in items.get(n, {}).get("fields", []))
+        names = [x["name"] for x in dump["items"] if x["kind"] in ("struct", "enum", "type")]
+        h = {f["name"]: f["ty"] for f in items.get("PetOwner", {}).get("fields", [])}
+        it = re.findall(r"[A-Z]\w*", re.sub(r"\b(Option|Vec|Box)\b", "", h.get("info", "")))
+        vts = [[m for f in v.get("fields", []) for m in f.get("mentions", [])] for v in items.get("Pet", {}).get("variants", [])]
+        vfields = sorted(tuple(fields(v[0])) for v in vts if v)
+        if len(names) != len(set(names)) or not it or fields(it[0]) != ["zip"] or vfields != [("email", "phone"), ("found_at",)]:
+            viol.append((cases[-1], f"variant / member name clash: PetOwner.info is typed {h.get('info')!r} with members {fields(it[0]) if it else None} (declared: zip); the variants of Pet carry {vfields} (declared: email+phone / found_at); items {sorted(names)}"))
+    ok = {"204": {"description": "n"}}
+    for ids in (["getPet", "getPet", "getPet_2"], ["get-pet", "get_pet", "getPet", "get_pet_2", "get_pet_3"], ["list", "list_2", "list", "list"]):
+        cases.append(("opids", tuple(ids)))
+        paths = {f"/p{k}": {"get": {"operationId": oid, "responses": ok}} for k, oid in enumerate(ids)}
+        sp = os.path.join(d, "ops.json")
+        json.dump({"openapi": "3.1.0", "info": {"title": "t", "version": "1"}, "paths": paths, "components": {"schemas": {}}}, open(sp, "w"))
+        outp = os.path.join(d, "ops")
+        rc, txt = vlib.oas(["generate", "client-mod", "-i", sp, "-o", outp, "-q"])
+        if rc != 0:
+            viol.append((cases[-1], f"operation ids {ids}: generator failed rc={rc} {txt.strip()[-200:]}"))
+            continue
+        ctext = open(os.path.join(outp, "client.rs")).read()
+        methods = re.findall(r"pub async fn (\w+)\s*\(", ctext)
+        docs = re.findall(r"\* Path: `GET (/p\d+)`", ctext)
+        if len(methods) != len(ids) or len(set(methods)) != len(methods) or sorted(set(docs)) != sorted(paths):
+            viol.append((cases[-1], f"operation ids {ids}: the client has the methods {methods} for the paths {sorted(set(docs))}; {len(ids)} operations ({sorted(paths)}) were declared"))
+    return cases, viol
+
+
 def undeclared_path_part():
     """template variables that no parameter declares get a synthesized member: the identifier the client uses for it is
     the member's (legal) name, whatever the spelling of the variable"""
@@ -501,8 +548,9 @@ def main(tier, seed, replay=None):
     ocases, viol6 = opname_part()
     icases, viol7 = inline_name_part()
     pcases, viol8 = undeclared_path_part()
-    viol2 = viol2 + viol3 + viol4 + viol5 + viol6 + viol7 + viol8
-    cases = cases + mcases + ucases + rcases + ocases + icases + pcases
+    vcases, viol9 = variant_and_opid_part()
+    viol2 = viol2 + viol3 + viol4 + viol5 + viol6 + viol7 + viol8 + viol9
+    cases = cases + mcases + ucases + rcases + ocases + icases + pcases + vcases
     res.counts.update({"evaluations": len(names) * 3 + len(cases), "distinct_nontrivial": len(names),
                        "traces_validated_against_impl": len(names) if exe else 0, "scope_cases": len(cases),
                        "rule": f"every string over the 14-symbol alphabet up to length {3 if tier=='quick' else 5}, every keyword in 4 spellings, a hand list and random Unicode strings through the real sanitisers (compiled by #[path]) and the extracted model; legality of the implementation's results decided by the model's legal_ident; plus collision classes (pairs/triples) placed in struct-field and enum-variant scopes through the CLI; module-level inline type names; unions of inline branches whose titles collide three or four ways or are keywords, with and without helper constructors; components named like the names derived for another component's inline array items; undeclared path template variables in camelCase / kebab-case / keyword spellings (the member the client uses exists)"})
